@@ -83,6 +83,27 @@ def harness(cfg, ns):
             def __exit__(self, *a):
                 return False
 
+            def __iter__(self):
+                # iterating the handle yields the physical lines: one per stored row (a line holding a row is never blank; blank
+                # lines INSIDE a quoted field are the business of the real-csv cross-check)
+                for row in ch.files[self.path]:
+                    yield Line(self, row)
+
+        class Line:
+            def __init__(self, fh, row):
+                self.fh, self.row = fh, row
+
+            def strip(self, *a):
+                return "<row>"
+
+            rstrip = lstrip = strip
+
+            def __bool__(self):
+                return True
+
+            def __len__(self):
+                return 5
+
         def fake_open(path, mode="r", *a, **k):
             ch.opened.append((str(path), mode))
             if "w" not in mode and str(path) not in ch.files:
@@ -103,11 +124,19 @@ def harness(cfg, ns):
                 for r in rows:
                     self.writerow(r)
 
-        def reader(fh, delimiter=",", **dialect):
+        def reader(src, delimiter=",", **dialect):
             ch.dialects.append(("reader", dict(dialect, delimiter=delimiter)))
-            if ch.files.get(fh.path + "#delim", delimiter) != delimiter:
+            if isinstance(src, FH):
+                fh, rows = src, list(ch.files[src.path])
+            else:
+                # any iterable of lines (a filtered / wrapped handle): the rows of the lines it lets through, in its order
+                lines = list(src)
+                if any(not isinstance(x, Line) for x in lines):
+                    raise core.Unsupported("csv.reader fed with something else than the lines of an opened file")
+                fh, rows = (lines[0].fh if lines else None), [x.row for x in lines]
+            if fh is not None and ch.files.get(fh.path + "#delim", delimiter) != delimiter:
                 raise core.Unsupported("file read with another delimiter than it was written with")
-            for row in ch.files[fh.path]:
+            for row in rows:
                 # every field comes back as text: numbers as text whose float() is the value, None as ''
                 yield [Text(x) if isinstance(x, (SymNum, int, float)) and not isinstance(x, bool) else ("" if x is None else str(x)) for x in row]
         stub = types.SimpleNamespace(writer=W, reader=reader)
@@ -321,7 +350,8 @@ def harness(cfg, ns):
 
 
 # ---------------------------------------------------------------------------------------------
-NASTY = [" lead", "trail ", "in ner", 'quo"te', "semi;colon", "com,ma", "tab\there", "unicodé-ß", "'single'", "a", " "]
+NASTY = [" lead", "trail ", "in ner", 'quo"te', "semi;colon", "com,ma", "tab\there", "unicodé-ß", "'single'", "a", " ",
+         "two\nlines", "para one\n\npara two", "top\n \t\nbottom"]
 
 
 def real_checks(tier):
@@ -351,7 +381,9 @@ def replay(case):
                 if not (back == c) or list(back.categories) != list(c.categories) or list(back.annotators) != list(c.annotators):
                     diff = [x for x in list(c) if x not in list(back)][:2]
                     bad.append(f"delimiter {delim!r}: round trip differs, e.g. {diff}; categories {list(back.categories)} vs {list(c.categories)}")
-        if case["kind"] == "csv":
+        if case["kind"] == "csv-nasty":
+            pass                            # the loop above is the whole cross-check
+        elif case["kind"] == "csv":
             c = common.real_continuum(dict(units=case["units"]))
             p = os.path.join(d, "o.csv")
             c.to_csv(p, delimiter=case["delim"])
